@@ -275,6 +275,18 @@ func (g *histGen) patch() {
 		v := int64(1 + g.rng.Intn(3))
 		p.Metagen = &v
 	}
+	if g.rng.Intn(5) == 0 {
+		other := g.name() // the name of (probably) another existing object, as when a resource is reused as template
+		p.Name = &other
+	}
+	if g.rng.Intn(8) == 0 {
+		ob := histBuckets[g.rng.Intn(len(histBuckets))]
+		p.Bucket = &ob
+	}
+	if g.rng.Intn(8) == 0 {
+		sz := int64(g.rng.Intn(3) * 7)
+		p.Size = &sz
+	}
 	if g.rng.Intn(10) == 0 {
 		p.Bad = true
 	}
@@ -481,6 +493,18 @@ func genHist(prop, out, tier string, rng *rand.Rand, oracle string) {
 		}
 		for _, mk := range stores() {
 			tasks = append(tasks, Task{mk, "no-name", noName, true})
+		}
+		// directed: names that exist only as directories of the file store are absent objects: reading,
+		// patching and deleting them answers 404 and touches nothing below them
+		upn := func(n, d string) Req {
+			return Req{Kind: "upload_media", B: "bkt", N: n, CType: "text/plain", Data: []byte(d), CP: noConds}
+		}
+		rdn := func(n string) Req { return Req{Kind: "get_media", B: "bkt", N: n} }
+		dirProg := []Req{upn("reports/q2", "x"), upn("reports/2023/q1", "y"), {Kind: "get_meta", B: "bkt", N: "reports"}, rdn("reports"),
+			{Kind: "patch", B: "bkt", N: "reports", Patch: &Patch{HasMeta: true, Meta: [][2]string{{"k", "v"}}}, CP: noConds},
+			{Kind: "delete", B: "bkt", N: "reports", CP: noConds}, {Kind: "delete", B: "bkt", N: "reports/2023", CP: noConds}, rdn("reports/q2"), rdn("reports/2023/q1"), {Kind: "list", B: "bkt"}}
+		for _, mk := range stores() {
+			tasks = append(tasks, Task{mk, "directory-names", dirProg, true})
 		}
 		// directed: a resumable upload whose declared MD5 does not match is refused at its last byte, and
 		// again at every further attempt to finish the same session; the previous object stays
